@@ -9,9 +9,10 @@ EXTENDS Naturals, FiniteSets, Sequences
 CONSTANTS NP,       \* peers 1..NP
           NC,       \* connection slots 1..NC per peer
           NT,       \* protection tags 1..NT
-          Kinds,    \* node kinds that agent-version events announce (0 unknown 1 bridge 2 full 3 light)
-          GcMode    \* "keep": gc forgets nobody (no peer is older than EXPIRED_AFTER);
-                    \* "any":  gc may forget any subset of the unconnected, unprotected peers
+          Kinds     \* node kinds that agent-version events announce (0 unknown 1 bridge 2 full 3 light)
+\* `old` of a peer: it is disconnected and its disconnected_at is more than EXPIRED_AFTER (120 s) in the past.
+\* Real time never gets there in a check; the environment action Age(p) (a verification hook that moves the
+\* stored Instant into the past) does.
 
 VARIABLES P, pub, pcount, op, res
 vars == <<P, pub, pcount, op, res>>
@@ -19,8 +20,8 @@ Peers == 1..NP
 Conns == 1..NC
 Tags  == 1..NT
 
-Fresh == [k |-> TRUE, c |-> {}, t |-> FALSE, a |-> FALSE, kind |-> 0, pr |-> {}]   \* Peer::new
-Gone  == [k |-> FALSE, c |-> {}, t |-> FALSE, a |-> FALSE, kind |-> 0, pr |-> {}]
+Fresh == [k |-> TRUE, c |-> {}, t |-> FALSE, a |-> FALSE, kind |-> 0, pr |-> {}, old |-> FALSE]   \* Peer::new (disconnected_at = now)
+Gone  == [k |-> FALSE, c |-> {}, t |-> FALSE, a |-> FALSE, kind |-> 0, pr |-> {}, old |-> FALSE]
 Known(S, p)     == S[p].k
 Connected(S, p) == S[p].c # {}
 Protected(S, p) == S[p].pr # {}
@@ -35,7 +36,7 @@ Recount(S) ==
 TagCount(S, t) == Cardinality({p \in Peers : S[p].k /\ t \in S[p].pr})
 
 TypeOK == /\ \A p \in Peers : /\ P[p].k \in BOOLEAN /\ P[p].c \subseteq Conns /\ P[p].t \in BOOLEAN
-                              /\ P[p].a \in BOOLEAN /\ P[p].kind \in 0..3 /\ P[p].pr \subseteq Tags
+                              /\ P[p].a \in BOOLEAN /\ P[p].kind \in 0..3 /\ P[p].pr \subseteq Tags /\ P[p].old \in BOOLEAN
           /\ \A t \in Tags : pcount[t] \in 0..NP
 
 Init == /\ P = [p \in Peers |-> Gone]
@@ -68,14 +69,14 @@ Unprotect(p, t) ==
     /\ UNCHANGED pub
 AddConnection(p, c) ==
     /\ Op("add_connection", p, c) /\ res' = <<>>
-    /\ P' = [Ensure(P, p) EXCEPT ![p].c = @ \cup {c}]
+    /\ P' = [Ensure(P, p) EXCEPT ![p].c = @ \cup {c}, ![p].old = FALSE]          \* disconnected_at.take()
     /\ IF ~Connected(P, p) THEN Republish ELSE UNCHANGED pub
     /\ UNCHANGED pcount
 RemoveConnection(p, c) ==
     /\ Op("remove_connection", p, c) /\ res' = <<>>
     /\ IF ~P[p].k THEN UNCHANGED <<P, pub>>
        ELSE LET left == P[p].c \ {c} IN
-            IF left = {} THEN /\ P' = [P EXCEPT ![p].c = {}, ![p].kind = 0, ![p].a = FALSE]
+            IF left = {} THEN /\ P' = [P EXCEPT ![p].c = {}, ![p].kind = 0, ![p].a = FALSE, ![p].old = FALSE]   \* disconnected_at = now
                               /\ Republish
             ELSE /\ P' = [P EXCEPT ![p].c = left] /\ UNCHANGED pub
     /\ UNCHANGED pcount
@@ -89,14 +90,19 @@ MarkArchival(p) ==
     /\ P' = [Ensure(P, p) EXCEPT ![p].a = TRUE] /\ Republish /\ UNCHANGED pcount
 Ping(p, c) ==
     /\ Op("on_ping", p, c) /\ res' = <<>> /\ UNCHANGED <<P, pub, pcount>>
-Forgettable(S) == {p \in Peers : S[p].k /\ ~Connected(S, p) /\ ~Protected(S, p)}
+\* environment (hook): the peer's disconnection becomes older than EXPIRED_AFTER
+Age(p) ==
+    /\ Op("age", p, 0) /\ res' = B(P[p].k /\ ~Connected(P, p))
+    /\ P' = IF P[p].k /\ ~Connected(P, p) THEN [P EXCEPT ![p].old = TRUE] ELSE P
+    /\ UNCHANGED <<pub, pcount>>
+\* gc keeps connected peers, protected peers and recently disconnected peers
+Forgettable(S) == {p \in Peers : S[p].k /\ ~Connected(S, p) /\ ~Protected(S, p) /\ S[p].old}
 Gc ==
     /\ Op("gc", 0, 0) /\ res' = <<>>
-    /\ \E X \in (IF GcMode = "keep" THEN {{}} ELSE SUBSET Forgettable(P)) :
-          P' = [p \in Peers |-> IF p \in X THEN Gone ELSE P[p]]
+    /\ P' = [p \in Peers |-> IF p \in Forgettable(P) THEN Gone ELSE P[p]]
     /\ UNCHANGED <<pub, pcount>>
 
-Next == \/ \E p \in Peers : \/ AddPeerId(p) \/ MarkArchival(p)
+Next == \/ \E p \in Peers : \/ AddPeerId(p) \/ MarkArchival(p) \/ Age(p)
                             \/ \E b \in BOOLEAN : SetTrusted(p, b)
                             \/ \E t \in Tags : Protect(p, t) \/ Unprotect(p, t)
                             \/ \E c \in Conns : AddConnection(p, c) \/ RemoveConnection(p, c) \/ Ping(p, c)
@@ -112,4 +118,5 @@ GcKeeps == [][op'.name = "gc" => \A p \in Peers : (P[p].k /\ (Connected(P, p) \/
 \* structure
 Shape == \A p \in Peers : /\ ~P[p].k => P[p] = Gone
                           /\ P[p].kind # 0 => Connected(P, p)
+                          /\ P[p].old => (P[p].k /\ ~Connected(P, p))
 =============================================================================
